@@ -27,8 +27,8 @@ func verifNameSources(n, maxNames int) []verifNameSource {
 		s.fail, _ = verifFail(addrs[i])
 		if !s.fail {
 			m := maxNames
-			if i > 0 && verifrt.Tier() == 0 && m > 1 {
-				m-- // quick tier: the later upstreams report one name less (every name comparison forks)
+			if i > 1 && m > 1 {
+				m-- // a third upstream reports one name less (every name comparison forks)
 			}
 			k := verifrt.Choice(addrs[i]+".count", m+1)
 			for j := 0; j < k; j++ {
